@@ -205,8 +205,20 @@ def evidence(ctx, p, K):
     got = [v for v, g, n in S.returns if not (isinstance(v, Poly) and v == ZERO)]
     ok = len(got) == 1 and isinstance(got[0], Poly) and got[0] == want
     ctx.ob(rule, rt.key, ok, where=rt, node=rt.node, construct=short(got[0]) if got else "", message=f"regularization term must be s_reduced^T (H_reduced s_reduced); expected {want!r}")
-    zero_guard = [g for v, g, n in S.returns if isinstance(v, Poly) and v == ZERO]
-    ctx.ob(rule, rt.key + ":no-regularization", len(zero_guard) == 1, where=rt, node=rt.node, construct="", message="without any regularization the term must be 0.0")
+    # the terms vanish exactly when no linear object is regularized: decision table of each of the three terms - the 0.0 return on the paths where
+    # `self.has(cls=AbstractRegularization)` is false, and only there
+    HAS = "self.has(cls=AbstractRegularization)"
+    for tname in ("regularization_term", "log_det_curvature_reg_matrix_term", "log_det_regularization_matrix_term"):
+        tm = inv.methods.get(tname)
+        if tm is None:
+            raise AnchorMissing(f"AbstractInversion.{tname}")
+        qs = paths.returns(paths.path_summaries(tm, project=p) or [])
+        zero = [q for q in qs if q.text in ("0.0", "0")]
+        other = [q for q in qs if q.text not in ("0.0", "0")]
+        okz = len(zero) >= 1 and all(q.holds(HAS) is False for q in zero) and len(other) >= 1 and all(q.holds(HAS) is True for q in other)
+        ctx.ob(rule, tm.key + ":no-regularization", okz, where=tm, node=(zero[0].node if zero else None) or tm.node,
+               construct="; ".join(f"{q.text[:30]} if has={q.holds(HAS)}" for q in qs)[:200],
+               message="the term must be 0.0 exactly when no regularization is present (`not self.has(cls=AbstractRegularization)`) and the computed value otherwise")
     for name, operand in (("log_det_curvature_reg_matrix_term", "self.curvature_reg_matrix_reduced"), ("log_det_regularization_matrix_term", "self.regularization_matrix_reduced")):
         mm = inv.methods.get(name)
         if mm is None:
@@ -273,6 +285,7 @@ _U = "autoarray/fit/fit_util.py"
 _D = "autoarray/fit/fit_dataset.py"
 _A = "autoarray/inversion/inversion/abstract.py"
 CONTROLS = [
+    Control("regularization term zero when a regularization IS present (guard negated; found by mutation fuzzing)", "autoarray/inversion/inversion/abstract.py", in_func("AbstractInversion.regularization_term", "        if not self.has(cls=AbstractRegularization):\n            return 0.0", "        if self.has(cls=AbstractRegularization):\n            return 0.0"), "C08.evidence"),
     Control("evidence: sign of log det(H) flipped", _U, in_func("log_evidence_from", "        - log_regularization_term", "        + log_regularization_term"), "C08.definition"),
     Control("noise normalisation without the square", _U, in_func("noise_normalization_with_mask_from", "noise_map[np.asarray(mask) == 0] ** 2.0", "noise_map[np.asarray(mask) == 0]"), "C08.definition"),
     Control("masked chi-squared map forgets the mask", _U, in_func("chi_squared_map_with_mask_from", "            out=np.zeros_like(residual_map),\n            where=np.asarray(mask) == 0,\n", ""), "C08.definition"),
